@@ -72,6 +72,8 @@ SCENARIOS = {
     "harv-jl-none": ("harvester", {"num_batches": 2}, "joblib", None),
     "samp-pkl": ("sampler", {"batchsize": 2}, "pickle", "rows"),
     "samp-csv": ("sampler", {"batchsize": 1}, "csv", "rows"),
+    # a harvester that keeps its dataset lazily (chunks; used by C12)
+    "harv-h5-lazy": ("harvester", {"batchsize": 2}, "h5netcdf", "overlap"),
     # a harvester that only lives in memory: no data file (used by C12)
     "harv-mem": ("harvester", {"batchsize": 2}, None, None),
     # a runner whose function has three outputs (used by C12)
@@ -84,7 +86,7 @@ SCENARIOS = {
 
 C10_SCENARIOS = [n_ for n_ in SCENARIOS
                  if n_ not in ("raw-bool", "samp-pkl-none", "runner3",
-                               "harv-mem")]
+                               "harv-mem", "harv-h5-lazy")]
 WORKLOADS = ["sow", "resow", "grow1", "growmulti", "growmissing", "reap"]
 
 
@@ -124,7 +126,9 @@ class Scn:
         if self.name == "harv-mem":
             return xyz.Harvester(r)
         if self.kind == "harvester":
-            return xyz.Harvester(r, data_name=path, engine=self.engine)
+            return xyz.Harvester(r, data_name=path, engine=self.engine,
+                                 chunks=1 if self.name == "harv-h5-lazy"
+                                 else None)
         return xyz.Sampler(r, data_name=path, engine=self.engine,
                            default_combos={"a": _ns["draw_a"],
                                            "b": _ns["draw_b"]})
